@@ -53,7 +53,7 @@ def correspondence(ctx, cmd, shards, extra, names=('',)):
     """run `harness <cmd>` for several seeds in parallel, evaluate each case file with vm_compute.
     Returns (total_stats, broken) where broken is a list of (what, detail)."""
     # the libraries the case files import must be current (Generated/*.v may just have been regenerated)
-    ok, log = ctx.make(['Model/Corr.vo', 'Model/CorrEngine.vo', 'Generated/GeomTable.vo'])
+    ok, log = ctx.make(['Model/Corr.vo', 'Model/CorrEngine.vo', 'Model/CorrValues.vo', 'Generated/GeomTable.vo'])
     if not ok:
         return {}, [('the correspondence libraries (Model/Corr*.v) no longer build', log[-3000:])]
     jobs = [(ctx, cmd, [str(x) for x in extra], i, ctx.seed * 1000 + i, names) for i in range(shards)]
